@@ -131,8 +131,8 @@ func verifBuildWorld2(sim *verifsim.Sim) *verifWorld {
 		"image": map[string]any{"type": "Image", "url": u("/media/carol-banner.jpg"), "mediaType": "image/jpeg"},
 		"outbox": u("/users/carol/outbox")})
 	w.put("/users/carol/outbox", map[string]any{"type": "OrderedCollection", "totalItems": 5, "first": u("/users/carol/outbox?page=1")})
-	w.put("/users/carol/outbox?page=1", map[string]any{"type": "OrderedCollectionPage", "orderedItems": []any{create(1), u("/acts/c2"), create(3)}, "next": u("/users/carol/outbox?page=2")})
-	w.put("/users/carol/outbox?page=2", map[string]any{"type": "OrderedCollectionPage", "orderedItems": []any{u("/acts/c4"), create(5)}})
+	w.put("/users/carol/outbox?page=1", map[string]any{"type": "OrderedCollectionPage", "orderedItems": []any{create(1), u("/acts/c2")}, "next": u("/users/carol/outbox?page=2")})
+	w.put("/users/carol/outbox?page=2", map[string]any{"type": "OrderedCollectionPage", "orderedItems": []any{create(3), u("/acts/c4"), create(5)}})
 	for k := 1; k <= 5; k++ {
 		w.put(fmt.Sprintf("/acts/c%d", k), create(k))
 	}
@@ -187,6 +187,8 @@ func (w *verifWorld) expand(tok string) []byte {
 		return []byte("open " + u(w.startA))
 	case "open_p":
 		return []byte("open " + u(w.startP))
+	case "open_c":
+		return []byte("open " + u(w.startA+"/outbox"))
 	case "open_bad":
 		return []byte("open " + u("/missing"))
 	case "feed_f":
@@ -595,7 +597,7 @@ func TestVerifKeys(t *testing.T) {
 		start := strings.TrimPrefix(strings.TrimPrefix(toks[0], "h"), "start_")
 		target := map[string]string{"a": w.startA, "p": w.startP}[start]
 		lens := verifkit.M{}
-		for _, macro := range []string{"open_a", "open_p", "open_bad", "feed_f", "feed_u", "bad_cmd"} {
+		for _, macro := range []string{"open_a", "open_p", "open_c", "open_bad", "feed_f", "feed_u", "bad_cmd"} {
 			lens[macro] = len(w.expand(macro))
 		}
 		out.Emit(verifkit.M{"ev": "reset", "sid": sid, "start": start, "keys": toks[1:], "lens": lens})
